@@ -59,6 +59,7 @@ func run(t *testing.T, sp spec) {
 				}
 				o.NonTrivial = sp.nontriv(s, tr)
 				o.Err = sp.check(s, tr)
+				o.NoShrink = tr.Spin
 				if o.Err != nil {
 					return o
 				}
